@@ -25,7 +25,14 @@ def run_one(name, tier):
     os.rmdir(wt)
     res = {"name": name, "properties": props, "checks": {}}
     try:
-        subprocess.run(["git", "-C", "/repo", "worktree", "add", "-q", "--detach", wt, "HEAD"], check=True)
+        for attempt in range(5):  # `git worktree add` can collide with another one running at the same moment
+            if subprocess.run(["git", "-C", "/repo", "worktree", "add", "-q", "--detach", wt, "HEAD"], capture_output=True).returncode == 0:
+                break
+            import time
+            time.sleep(2 + attempt)
+        else:
+            res["error"] = "git worktree add failed"
+            return res
         ap = subprocess.run(["git", "-C", wt, "apply", os.path.join(d, "patch.diff")], capture_output=True, text=True)
         if ap.returncode != 0:
             res["error"] = "patch does not apply: " + ap.stderr[-500:]
@@ -59,17 +66,30 @@ def main():
         i = args.index("--jobs")
         jobs = int(args[i + 1])
         del args[i:i + 2]
+    rp = os.path.join(SEEDED, "RESULTS.json")
+    if "--out" in args:  # separate result file (merge later with --merge) so that two runs can go on side by side
+        i = args.index("--out")
+        rp = args[i + 1]
+        del args[i:i + 2]
+    if "--merge" in args:
+        i = args.index("--merge")
+        extra = json.load(open(args[i + 1]))
+        cur = json.load(open(rp)) if os.path.exists(rp) else {}
+        cur.update(extra)
+        json.dump(cur, open(rp, "w"), indent=1, sort_keys=True)
+        print("merged", len(extra), "results into", rp)
+        return
     names = args or sorted(n for n in os.listdir(SEEDED) if os.path.isdir(os.path.join(SEEDED, n)))
     out = {}
-    rp = os.path.join(SEEDED, "RESULTS.json")
     if os.path.exists(rp):
         out = json.load(open(rp))
     with concurrent.futures.ThreadPoolExecutor(max_workers=jobs) as ex:
         for res in ex.map(lambda n: run_one(n, tier), names):
             out[res["name"]] = res
             det = {p: c["detected"] for p, c in res.get("checks", {}).items()}
-            print(res["name"], det, res.get("error", ""))
-    json.dump(out, open(rp, "w"), indent=1, sort_keys=True)
+            print(res["name"], det, res.get("error", ""), flush=True)
+            json.dump(out, open(rp + ".tmp", "w"), indent=1, sort_keys=True)
+            os.replace(rp + ".tmp", rp)
 
 
 if __name__ == "__main__":
